@@ -1,0 +1,29 @@
+//go:build verif
+
+package sherpa
+
+// Contracts for govc (see /verif/DESIGN.md). Comment-only file: contributes no code.
+
+//@ func (s *Service) streamResponseWithTimeout
+//@   trusted not yet under contract: the goroutine-per-read streaming loop (see C18); assumed to write only to w
+//@   modifies ghost(w).started, ghost(w).status
+//@   ensures old(ghost(w).started) ==> ghost(w).started
+//@   ensures !errorsAs(res2, "*core.ResponseStartedError") && !errorsIs(res2, core.ErrCircuitOpen)
+
+// One attempt of the sherpa engine. The clauses are those of functype core.ProxyFunc (C02: an error that makes the
+// retry handler move on leaves the client's response untouched), C19 (exactly one success/failure record per
+// attempt, at most one upstream round trip) and C01/C15 (what is handed to the transport).
+//@ func (s *Service) proxyToSingleEndpoint
+//@   property C01 C02 C15 C19
+//@   requires s != nil && r != nil && r.URL != nil && endpoint != nil && endpoint.URL != nil && stats != nil
+//@   requires !ghost(w).started && ghost(w).hdr != nil
+//@   uses rse_not_circuit
+//@   modifies *
+//@   loop 1 invariant !ghost(w).started && rtCount == old(rtCount) + 1 && recSuccess == old(recSuccess) && recFailure == old(recFailure)
+//@   loop 2 invariant !ghost(w).started && rtCount == old(rtCount) + 1 && recSuccess == old(recSuccess) && recFailure == old(recFailure)
+//@   ensures res != nil && (connErr(res) || circuitOpen(res)) ==> !ghost(w).started
+//@   ensures recSuccess + recFailure == old(recSuccess) + old(recFailure) + 1
+//@   ensures res == nil ==> recSuccess == old(recSuccess) + 1 && rtCount == old(rtCount) + 1
+//@   ensures rtCount <= old(rtCount) + 1
+//@   at call RoundTrip 1 assert proxyReq != nil && proxyReq.Method == r.Method && proxyReq.Body == r.Body && !ghost(w).started
+//@   at call RoundTrip 1 assert forall k string :: has(proxyReq.Header, k) ==> !sensHeader(k) && !hopHeader(k)
